@@ -256,7 +256,28 @@ def r14_5(chk):
     chk.floor("R14.5", 4, "4 writer apps")
 
 
+def r14_6(chk):
+    chk.rule("R14.6", "a function-app is stateless across records: the constructor arguments it stored (self._args, self._kwargs) reach the user's function only as deep copies made per call -- handed over by reference (or by a shallow {**...} / tuple copy), a mutable argument the function changes carries state from one record to the next, so a record's outcome depends on what was processed before it and on whether the run was parallel")
+    m = chk.repo.module("app/composable.py")
+    outer = m.func("_class_from_func")
+    mains = [f for f in outer.body if isinstance(f, ast.FunctionDef) and any(isinstance(c, ast.Call) and norm(c.func) == "self._user_func" for c in ast.walk(f))]
+    inits = [f for f in outer.body if isinstance(f, ast.FunctionDef) and any(isinstance(t, ast.Attribute) and norm(t.value) == "self" for st in ast.walk(f) if isinstance(st, ast.Assign) for t in st.targets)]
+    if not mains or not inits:
+        raise AnalysisError("_class_from_func: the generated __init__/main functions were not found")
+    stored = sorted({t.attr for f in inits for st in ast.walk(f) if isinstance(st, ast.Assign) for t in st.targets if isinstance(t, ast.Attribute) and norm(t.value) == "self"})
+    fn = mains[0]
+    n = 0
+    for a in stored:
+        uses = [x for x in ast.walk(fn) if isinstance(x, ast.Attribute) and norm(x) == f"self.{a}" and isinstance(x.ctx, ast.Load)]
+        for u in uses:
+            n += 1
+            wrapped = any(isinstance(c, ast.Call) and (call_name(c) or "").split(".")[-1] == "deepcopy" and c.args and c.args[0] is u for c in ast.walk(fn))
+            chk.decide(wrapped, "R14.6", key(m, f"_class_from_func.{fn.name}", f"self.{a} handed on as a deep copy"), m.loc(u), f"deepcopy(self.{a})", f"`self.{a}` is used without deepcopy(...) on the way to the user's function: a mutable constructor argument that the function modifies leaks from record to record (serial and parallel runs then disagree)")
+    chk.floor("R14.6", 2, "the stored positional and keyword constructor arguments")
+
+
 def run(chk):
+    r14_6(chk)
     r14_1(chk)
     r14_2(chk)
     r14_3(chk)
